@@ -6,7 +6,11 @@ restrict(v, b) for every (v, b) of every basis member; executed on the real clas
 and on the extracted model; truth tables on all 16 assignments must equal (i) the model's and (ii) the Boolean
 combination computed by plain integer arithmetic from the expression semantics; every result diagram is walked
 (variable strictly earlier in the ordering than the children's, low is not high); variables() must be the true
-support; combining different orderings / using a variable outside the ordering must raise RuntimeError."""
+support; combining different orderings / using a variable outside the ordering must raise RuntimeError.
+Also: the SAME OBDD object as both operands (f&f, f|f, f^f, directly and through a second reference), the binary steps
+spelled with augmented assignment, the answers of variables() / get_list() edited by the caller between observations,
+orderings of 0, 1 and 2 variables (the two constants over the EMPTY ordering included), and the public node route
+OBDD(BDDNode(...), ordering) with the reduced ordered diagram of f (must be the very OBDD of f) and with ill-formed diagrams."""
 from common import *
 import bddlib as B
 LEVEL = 'proof'
@@ -33,14 +37,27 @@ def history_for(O, e1, basis, rng):
         pair = vals[(v + len(ops)) % 2]
         ops.append(['restrict', 0, v, pair[0], 3])
         ops.append(['restrict', 0, v, pair[1], 3])
+    # one and the same OBDD object on both sides of the operator; then the same through a second reference to it
+    ops += [['xor', 0, 0, 2], ['and', 0, 0, 2], ['or', 0, 0, 2], ['alias', 0, 3], ['xor', 0, 3, 2], ['or', 3, 0, 2, 'aug'],
+            ['and', 3, 3, 2], ['xor', 3, 3, 3]]
     for n, e2 in enumerate(basis):
         ops.append(B.mk_parse(1, O, e2))
         if B.expected_status(e2, O) == 'ok':
-            ops.append(['and', 0, 1, 2])
-            ops.append(['or', 0, 1, 2])
-            ops.append(['xor', 0, 1, 2])
+            # one of the three spelled  acc = p[0]; acc &= p[1]; p[2] = acc
+            ops.append(['and', 0, 1, 2] + (['aug'] if n % 3 == 0 else []))
+            ops.append(['or', 0, 1, 2] + (['aug'] if n % 3 == 1 else []))
+            ops.append(['xor', 0, 1, 2] + (['aug'] if n % 3 == 2 else []))
         if n % 8 == 7:
             ops.append(['gc'])
+    # the public node route: the reduced ordered diagram of e1 handed over as a BDDNode is the OBDD of e1 (== p[0], same root);
+    # a diagram with a variable outside the ordering (at the root / below the root) or against the ordering is refused
+    ops.append(B.mk_node(3, O, e1))
+    outs = [v for v in range(5) if v not in O]
+    for kind in ('root_outside', 'inner_outside', 'misordered'):
+        nd = B.mk_node(3, O, e1, kind, rng.choice(outs))
+        if nd is not None:
+            ops.append(nd)
+    ops += [['and', 0, 3, 2], ['xor', 3, 0, 2]]
     # guards: another ordering of the same variables, a sub-ordering, an ordering lacking a used variable
     O2 = list(reversed(O))
     if O2 != O:
@@ -74,16 +91,26 @@ def run(R):
         orders = perms4 + perms3
     else:
         orders = [perms4[0], perms4[23], perms4[10], perms4[13], perms3[1], perms3[22]]
+    # small orderings: none, one and two variables (thorough: all of them)
+    small = [[]] + [[v] for v in range(4)] + [list(p) for c in itertools.combinations(range(4), 2) for p in itertools.permutations(c)]
+    orders = orders + (small if R.thorough else [[], [1], [3], [2, 0], [1, 3], [3, 2]])
     R.rule = ('basis of %d expressions over a..d (constants, literals, all 2-variable connectives, majority, if-then-else, parity of 3 and 4, '
               'DNF/CNF shapes that skip levels, keyword spellings); orderings: %s; for every ordering O and every basis member f whose '
               'variables lie in O: ~f, f.restrict(v, b) for v in a..e and b in {True, False, 1, 0}, and f&g, f|g, f^g for EVERY basis member g '
               '(members using a variable outside O must fail to parse with RuntimeError); guards: f under the reversed ordering, under O minus '
-              'an unused variable, and under O minus a used variable (expression and lambda notation). Observed after every step: status, truth '
+              'an unused variable, and under O minus a used variable (expression and lambda notation); f&f, f|f, f^f with ONE object as both '
+              'operands (directly and through a second reference p[3]=p[0]); a third of the binary steps spelled acc=f; acc&=g; the node route '
+              'OBDD(BDDNode(...), O) with the reduced O-ordered diagram of f computed by the harness (must == f, same root) and with three '
+              'ill-formed diagrams (root variable outside O -> RuntimeError; a variable outside O below the root -> refused, class recorded; '
+              'a diagram ordered by reversed O -> refused); small orderings: %s (over [] the two constants, built from text and from '
+              'BDDNode(0/1), through every operation). The worker edits what variables() and get_list() returned after every observation. '
+              'Observed after every step: status, truth '
               'tables of the pool on all 16 assignments (library = model = integer arithmetic on the operand tables), variables() = set of '
               'variables the table depends on, node walk of every pool diagram (ordered, low is not high), plus the C16 unique-table scans. '
               'A case = (ordering, operation, operands); non-trivial = the result diagram has >= 2 internal nodes'
               % (len(BASIS), 'all 24 permutations of a..d and all 24 orderings of 3 of the 4 variables' if R.thorough else
-                 '4 permutations of a..d and 2 three-variable orderings'))
+                 '4 permutations of a..d and 2 three-variable orderings',
+                 'every ordering of 0, 1 and 2 variables' if R.thorough else '[], 2 one-variable and 3 two-variable orderings'))
     hs = []
     for O in orders:
         for e1 in basis:
@@ -92,7 +119,7 @@ def run(R):
     hs.sort(key=lambda h: -len(repr(h['ops'][0])))       # big diagrams first: better load balance
     batches = B.chunks(hs, 2)
     results = B.parallel(batch, batches)
-    kinds, errors, sizes = {}, {}, {}
+    kinds, errors, sizes, node_refusals = {}, {}, {}, {}
     for bt, res in zip(batches, results):
         for h, (viol, info, _) in zip(bt, res):
             for v in viol:
@@ -105,14 +132,25 @@ def run(R):
                     if s['status'] != 'ok':
                         errors['%s:%s' % (k, s['status'])] = errors.get('%s:%s' % (k, s['status']), 0) + 1
                     continue
-                if k in ('gc', 'drop'):
+                if k in ('gc', 'drop', 'alias'):
                     continue
+                if k == 'node':
+                    R.evaluations += 1
+                    key = '%s:%s' % (op[5], s['lib_status'])
+                    node_refusals[key] = node_refusals.get(key, 0) + 1
+                    if op[5] != 'ok' or B.spec_nodes(op[4]) >= 2:
+                        R.nontriv((tuple(h['O']), 'node', op[5], B.spec_text(op[4])))
+                    continue
+                if k in ('and', 'or', 'xor') and len(op) > 4:
+                    kinds[k + '(augmented)'] = kinds.get(k + '(augmented)', 0) + 1
+                if k in ('and', 'or', 'xor') and op[1] == op[2]:
+                    kinds[k + '(one object twice)'] = kinds.get(k + '(one object twice)', 0) + 1
                 R.evaluations += 1
                 kinds[k] = kinds.get(k, 0) + 1
                 if s['status'] != 'ok':
                     errors['%s:%s' % (k, s['status'])] = errors.get('%s:%s' % (k, s['status']), 0) + 1
                     continue
-                dst = op[-1]
+                dst = op[3] if k in ('and', 'or', 'xor') else op[-1]
                 internal = s['shape'][dst][0]
                 sizes[internal] = sizes.get(internal, 0) + 1
                 if internal >= 2:
@@ -122,7 +160,14 @@ def run(R):
                         R.sample({'ordering': [B.NAMES[x] for x in h['O']], 'op': B.op_text(op), 'p[0]': cur.get(0), 'p[1]': cur.get(1),
                                   'result_nodes': internal})
     R.cov['distribution'] = {'orderings': len(orders), 'histories': len(hs), 'operations': kinds, 'expected_errors': errors,
-                             'result_internal_nodes': {str(k): v for k, v in sorted(sizes.items())}}
+                             'result_internal_nodes': {str(k): v for k, v in sorted(sizes.items())},
+                             'node_route(kind:library status)': node_refusals}
+    R.cov['informational'] = ('node route, not part of the violation logic: a BDDNode whose ROOT variable is outside the ordering is refused by the '
+                              'library\'s explicit guard (RuntimeError, demanded); a variable outside the ordering BELOW the root is refused with '
+                              'KeyError (ListOrdering.cmp looks the name up before the guard of the child is reached) - C17 speaks of RuntimeError '
+                              'for COMBINING OBDDs / parsing with a variable outside the ordering and theorem C17_respects_ordering only decides '
+                              '"accepted <-> ordered", so any refusal (RuntimeError, KeyError, ValueError) is accepted there and only acceptance is '
+                              'a violation; the classes seen are in distribution["node_route(kind:library status)"]')
     R.cov['live_count_rule'] = 'as in C16 (exact after gc.collect(), >= otherwise)'
     R.exhaustive = False
 
